@@ -52,11 +52,20 @@ def real_eq(name):
     return f
 
 
+def on_tensor(o, recs, s, label):
+    """slot obligations: every eigvalsh call of `recs` receives exactly the tensor `s` (component by component).  Only then may the eigenvalues of the calls be
+    identified with each other (lemma.sorted-roots-unique) - added after seed C17-a, which fed one call the tensor with s13 / s23 swapped"""
+    for k, rec in enumerate(recs):
+        for nm, a, b in zip(NAMES, rec[1], s):
+            o.prove(f'{label}: eigvalsh call {k} receives {nm} in its slot', a == b)
+
+
 def with_eigs(o, name, s, kind):
     """run `name`, return (result term, eigenvalue symbols w0<=w1<=w2 of the *first* eigvalsh call)"""
     n0 = len(o.I.eig_records)
     r = o.run1(lambda: callf(o, name, s, kind), label=f'{name}[{kind}]')
     recs = o.I.eig_records[n0:]
+    on_tensor(o, recs, s, f'{name}[{kind}]')
     return r, recs
 
 
@@ -276,6 +285,8 @@ def scaling_functions(o):
             n1 = len(o.I.eig_records)
             b = o.run1(lambda: callf(o, name, cs, kind), label=f'{name}(cS)[{kind}]')
             ra, rb = o.I.eig_records[n0:n1], o.I.eig_records[n1:]
+            on_tensor(o, ra, s, f'{name}(S)[{kind}]')
+            on_tensor(o, rb, cs, f'{name}(cS)[{kind}]')
             under = [pos]
             if ra:
                 w = ra[0][0]
@@ -319,6 +330,7 @@ def signed_variants(o):
             a = o.run1(lambda: callf(o, f'signed_{base}_trace', s, kind), label=f'signed_{base}_trace[{kind}]')
             b = o.run1(lambda: callf(o, f'signed_{base}_abs_max_principal', s, kind), label=f'signed_{base}_abs_max_principal[{kind}]')
             recs2 = o.I.eig_records[n0:]
+            on_tensor(o, recs2, s, f'signed_{base}_*[{kind}]')
             same = []
             for rec in recs2 + [r for r in o.I.eig_records[:n0]]:
                 same += [rec[0][i] == w[i] for i in range(3)]
